@@ -13,6 +13,12 @@ Ltac res_cases S t :=
 Ltac decl_cases S n :=
   destruct (lookup S n) as [[?dfs ?kp ?ia|?vs ?vok ?kp|?ms|?tt]|] eqn:?Elk; try discriminate.
 
+Lemma find_variant_in vs id vt : find_variant vs id = Some vt -> In (id, vt) vs.
+Proof.
+  induction vs as [|[i t] r IH]; cbn [find_variant]; [discriminate|].
+  destruct (i =? id) eqn:E; [|right; auto]. intros H. injection H as <-. left. f_equal. lia.
+Qed.
+
 Section Enc.
   Variable S : schema.
   Hypothesis Hwf : wf_schema S = true.
@@ -65,11 +71,6 @@ Section Enc.
   Qed.
 
   (* union variants *)
-  Lemma find_variant_in vs id vt : find_variant vs id = Some vt -> In (id, vt) vs.
-  Proof.
-    induction vs as [|[i t] r IH]; cbn [find_variant]; [discriminate|].
-    destruct (i =? id) eqn:E; [|right; auto]. intros H. injection H as <-. left. f_equal. lia.
-  Qed.
 
   Lemma wf_variant n vs vok kp id vt : lookup S n = Some (DUnion vs vok kp) -> find_variant vs id = Some vt ->
     in_s 16 id.
